@@ -68,6 +68,14 @@ CHECKS = {
             'and random state are unchanged; a permuted order must give the same final data.',
             'columns within half a channel of a range end may be included or not; derived tolerance only where the sub-grid origin differs (integrate_f_profile), exact otherwise',
             'DESIGN.md 3/C06'),
+    'C13': ('exploration',
+            'differential testing: add_constant_signal vs add_signal on a twin frame over generated start/drift/width/profile/smearing; mirror metamorphic relation',
+            'Generated start frequencies (inside, at the edge of and outside the band, on centres and half-way points), drifts of either sign and zero, '
+            'widths 0.05-10 channels, five profile types, smearing on/off, plain and Quantity arguments: the helper must equal general injection '
+            'wherever the general signal is non-zero (compact profiles) / within FWHM/2 of the smeared centre (tailed), equal-or-zero elsewhere; '
+            'mirror image for -d; zero-drift smeared == unsmeared.',
+            'general injection (checked by C01) is the reference; sub-step count taken from the property formula on the doubles passed; box-edge pixels excluded',
+            'DESIGN.md 3/C13'),
 }
 
 ALL = [f'C{i:02d}' for i in range(1, 21)]
